@@ -694,3 +694,149 @@ def import_pair(rnd):
             i = rnd.choice(idxs)
             main_text = main_text[:i] + b + main_text[i + len(a) :]
     return "import-pair", {"m.emb": main_text, "imp.emb": imp_text}, "m.emb"
+
+
+# ---- scope-aware wrong-kind substitution (C16) -----------------------------------------
+#
+# Naive token mutation dies in the parser or the symbol resolver.  To reach the
+# typing, bounds, dependency and back-end passes with *unexpected but resolvable*
+# operands, take a valid model program and replace 1-3 expression slots (or
+# sub-expressions) by expressions over names that ARE in scope there, of any kind:
+# scalar/struct/array/enum/virtual fields (earlier and later ones), parameters,
+# generated fields ($size_in_bytes, $max/$min...), $next, this, enum values,
+# static references, sub-field paths, huge constants, and the builtin functions.
+
+def _all_structs(m):
+    out = []
+
+    def walk(t):
+        if isinstance(t, M.Enum):
+            return
+        out.append(t)
+        for s in t.subtypes:
+            walk(s)
+        for f in t.fields:
+            for g in [f] + (f.anon or []):
+                if g.inline is not None and not isinstance(g.inline, M.Enum):
+                    walk(g.inline)
+
+    for t in m.types:
+        walk(t)
+    return out
+
+
+def _scope_atoms(rnd, m, st):
+    atoms = []
+    units = "bits" if st.kind == "bits" else "bytes"
+    for f in st.fields:
+        for g in ([f] if not f.is_anon else f.anon):
+            atoms.append(g.name)
+            if g.typ is not None and not g.typ.is_scalar() and not g.typ.dims:
+                tgt = g.inline if (g.inline is not None and not isinstance(g.inline, M.Enum)) else g.typ.target
+                if tgt is not None and tgt.fields:
+                    sub = rnd.choice(tgt.fields)
+                    if not sub.is_anon:
+                        atoms.append("%s.%s" % (g.name, sub.name))
+                    atoms.append("%s.$size_in_%s" % (g.name, "bits" if tgt.kind == "bits" else "bytes"))
+    for pn, pt in st.params:
+        atoms.append(pn)
+    atoms += ["$size_in_%s" % units, "$max_size_in_%s" % units, "$min_size_in_%s" % units, "$next", "this"]
+    for t in m.types:
+        if isinstance(t, M.Enum) and t.values:
+            atoms.append("%s.%s" % (t.name, rnd.choice(t.values)[0]))
+        elif not isinstance(t, M.Enum):
+            atoms.append("%s.$size_in_%s" % (t.name, "bits" if t.kind == "bits" else "bytes"))
+            atoms.append("%s.$max_size_in_%s" % (t.name, "bits" if t.kind == "bits" else "bytes"))
+            virt = [f for f in t.fields if f.is_virtual]
+            if virt:
+                atoms.append("%s.%s" % (t.name, rnd.choice(virt).name))
+            phys = [f for f in t.fields if not f.is_virtual and not f.is_anon]
+            if phys and rnd.random() < 0.3:
+                atoms.append("%s.%s" % (t.name, rnd.choice(phys).name))
+    atoms += ["0", "1", "-1", "true", "false", "255", "9223372036854775807", "9223372036854775808", "18446744073709551615", "18446744073709551616", "-9223372036854775808", "-9223372036854775809"]
+    return atoms
+
+
+def _wrong_kind_expr(rnd, atoms, depth=0):
+    k = rnd.random()
+    a = lambda: rnd.choice(atoms) if depth >= 2 or rnd.random() < 0.6 else "(" + _wrong_kind_expr(rnd, atoms, depth + 1) + ")"
+    if k < 0.40:
+        return rnd.choice(atoms)
+    if k < 0.62:
+        return "%s %s %s" % (a(), rnd.choice(["+", "-", "*", "==", "!=", "<", "<=", ">", ">=", "&&", "||"]), a())
+    if k < 0.70:
+        return "%s ? %s : %s" % (a(), a(), a())
+    if k < 0.78:
+        return "$max(%s)" % ", ".join(a() for _ in range(rnd.choice([0, 1, 2, 3])))
+    if k < 0.86:
+        return "$present(%s)" % rnd.choice(atoms)
+    if k < 0.94:
+        return "%s(%s)" % (rnd.choice(["$upper_bound", "$lower_bound"]), a())
+    return "%s(%s, %s)" % (rnd.choice(["$upper_bound", "$present", "$lower_bound"]), a(), a())
+
+
+def _replace_sub(rnd, e, new):
+    """Replaces a random sub-expression of model expression e by new."""
+    if e is None or e[0] not in ("op", "?:", "max", "ub", "lb") or rnd.random() < 0.4:
+        return new
+    if e[0] == "op":
+        if rnd.random() < 0.5:
+            return ("op", e[1], _replace_sub(rnd, e[2], new), e[3])
+        return ("op", e[1], e[2], _replace_sub(rnd, e[3], new))
+    if e[0] == "?:":
+        i = rnd.randrange(1, 4)
+        return tuple(_replace_sub(rnd, x, new) if j == i else x for j, x in enumerate(e))
+    if e[0] == "max" and e[1]:
+        i = rnd.randrange(len(e[1]))
+        return ("max", [_replace_sub(rnd, x, new) if j == i else x for j, x in enumerate(e[1])])
+    if e[0] in ("ub", "lb"):
+        return (e[0], _replace_sub(rnd, e[1], new))
+    return new
+
+
+def scope_substituted_source(rnd):
+    """(class, files, main): a model program with 1-3 scope-aware substitutions."""
+    m, _ = layout_module(rnd)
+    structs = _all_structs(m)
+    if not structs:
+        return "scope-substitution", {"m.emb": module_text(m)}, "m.emb"
+    for _ in range(rnd.choice([1, 1, 2, 3])):
+        st = rnd.choice(structs)
+        atoms = _scope_atoms(rnd, m, st)
+        new = ("raw", _wrong_kind_expr(rnd, atoms))
+        slots = []
+        for f in st.fields:
+            for g in [f] + (f.anon or []):
+                if g.is_virtual:
+                    slots.append((g, "value"))
+                else:
+                    slots += [(g, "start"), (g, "size")]
+                    if g.typ is not None:
+                        for i in range(len(g.typ.args)):
+                            slots.append((g, ("arg", i)))
+                        for i, d in enumerate(g.typ.dims):
+                            if d is not None:
+                                slots.append((g, ("dim", i)))
+                slots.append((g, "cond"))
+                slots.append((g, "requires"))
+        slots.append((st, "requires"))
+        if not slots:
+            continue
+        obj, slot = rnd.choice(slots)
+        if isinstance(slot, tuple):
+            kind, i = slot
+            lst = obj.typ.args if kind == "arg" else obj.typ.dims
+            lst[i] = _replace_sub(rnd, lst[i], new)
+        else:
+            old = getattr(obj, slot, None)
+            if old is None and slot in ("cond", "requires") and rnd.random() < 0.6:
+                continue  # mostly mutate existing expressions
+            if slot == "requires" and old is not None and not isinstance(old, tuple):
+                continue
+            setattr(obj, slot, _replace_sub(rnd, old, new))
+    try:
+        text = module_text(m)
+    except Exception:
+        m2, _ = layout_module(rnd)
+        text = module_text(m2)
+    return "scope-substitution", {"m.emb": text}, "m.emb"
